@@ -117,6 +117,13 @@ Theorem C03_sm_commit_iff_quorum : forall vals mask tot nil hp hn,
 Proof. exact sm_commit_iff_quorum. Qed.
 Print Assumptions C03_sm_commit_iff_quorum.
 
+Theorem C03_sm_prevote_commit_iff_quorum : forall vals mask tot nil hp hn,
+  1 <= total vals -> total vals < two64 -> pow vals mask <= tot ->
+  (sm_prevote_ladder (total vals) tot (pow vals mask) nil hp hn = Ok ActBeginCommit <->
+   quorumb vals mask = true /\ nil = false).
+Proof. exact sm_prevote_commit_iff_quorum. Qed.
+Print Assumptions C03_sm_prevote_commit_iff_quorum.
+
 Theorem C03_kernel_commit_iff_quorum : forall vals mask tot nil hp hn,
   1 <= total vals -> total vals < two64 ->
   (kernel_precommit_ladder (total vals) tot (pow vals mask) nil hp hn = Ok ActShiftCommit <->
